@@ -2,17 +2,57 @@
 """Regenerates MANIFEST.json from the table below (kept as code so that it stays consistent with the harness catalogue)."""
 import json, os
 V = os.path.dirname(os.path.abspath(__file__))
-TECH = "bounded symbolic model checking of the compiled Rust (Kani 0.68 -> CBMC 6.11 -> CaDiCaL), unwinding assertions on"
+TECH = "solver-based: bounded symbolic model checking of the compiled Rust source (Kani 0.68 -> CBMC 6.11 -> CaDiCaL SAT), unwinding assertions on, native replay of counterexamples"
 NOTE_BASE = ("Trusted: Kani/CBMC/CaDiCaL; the heap-free container models in /verif/models standing in for slotmap, hashlink and "
              "std HashMap/HashSet (validated natively against the real crates by setup_cmd); two function stubs (insertion sort, "
              "Option::as_ref); a violation is only reported after the solver's counterexample reproduces natively against the real crates.")
+MECH = ("Mechanism level: the quantifier over whole programs x histories is NOT discharged. What the solver decides is the local step "
+        "the property rests on, for every value of the symbolic inputs, from pre-states built with the crate's own store API. ")
 CLAIMS = {
  "C12": ("Decided in full for the instantiations O=u8 and O=Result<u8,u8>: for every pair of outputs (o1,o2) and each of the five "
          "checkers (typed API and the object-safe OutputCheckerObj proxy), check(o2, stamp(o1)) is consistent exactly when the "
-         "documented relation holds. No loops are involved, so there is no unwinding bound; other payload types are outside the claim.",
-         "§4 C12"),
+         "documented relation holds. No loops are involved, so there is no unwinding bound; other payload types are outside the claim.", "§4 C12"),
+ "C10": ("Bounded: the real DAG<u8,u8> is run against a reference model from 14 concrete pre-states; every single operation (quick) / every pair "
+         "of operations (thorough) with solver-chosen kind and operands over <= 4 node handles and symbolic payloads; after each operation ranks "
+         "are a bijection onto 1..n respecting every edge, add_edge is rejected exactly for self/reachable, rejected insertions leave ranks and "
+         "edges unchanged.", "§4 C10"),
+ "C11": ("Bounded: same exploration as C10; after every operation every public query (adjacency in first-insertion order with first-insertion "
+         "data, contains_edge, reachability incl. query histories of length 2, descendants sorted/unsorted, topo_cmp, removals) is compared with "
+         "the reference for every node and ordered pair.", "§4 C11"),
+ "C15": ("Unit + store level: for seven task types and two resource types with identical representation and hash, dyn equality holds iff same "
+         "concrete type and equal fields (symbolic), equal keys hash equally, and Store node identity / cached outputs follow that identity even "
+         "when every hash collides.", "§4 C15"),
+ "C17": ("Partly, unit level: CompositeTracker forwards each of the 23 methods once to both children with unchanged arguments in order; each "
+         "Tracking helper emits a matching start/end pair; EventTracker's stored events, indices and all query helpers agree with a reference "
+         "stream. Well-nestedness over whole builds is outside the claim.", "§4 C17"),
+ "C02": (MECH + "check_task re-validates a 3-dependency list in creation order, stops at the first inconsistent one, reuses the cached output iff all "
+         "are consistent by their own checker; make_task_consistent executes iff needed, at most once per session.", "§4 C02"),
+ "C09": (MECH + "read stamps from the very reader handed out (left fresh), write stamps after write_fn, written_to at call time, require stamps the "
+         "returned output; consistency verdicts equal the dependency's own checker verdict for exact, coarse, always-consistent and failing checkers.", "§4 C09"),
+ "C18": (MECH + "a checker error at any position of the list makes check_task return None (task re-executed), is reported exactly once and never "
+         "aborts; during bottom-up scheduling the erring dependency's task is scheduled and every error is reported.", "§4 C18"),
+ "C05": (MECH + "a read aborts with 'Hidden dependency' exactly when the reader does not reach the recorded writer; a write/written_to aborts exactly "
+         "when some recorded reader does not reach the writer, before the writer is opened or write_fn runs; otherwise the edge is recorded.", "§4 C05"),
+ "C06": (MECH + "a write/written_to to a resource whose recorded writer is another task aborts with 'Overlapping write' before anything is modified "
+         "(also when the task already holds a read edge to it); the same writer after reset_task is not an overlap; one write edge results.", "§4 C06"),
+ "C07": (MECH + "reserving a require that would close a cycle of length 1-3 (also through a still-reserved edge) aborts with 'Cyclic task dependency'; "
+         "otherwise exactly one reserved edge results and nothing executes. The graph-level 'rejected exactly when dst reaches src' is C10.", "§4 C07"),
+ "C08": (MECH + "after reset_task and re-recording, the outgoing dependencies and all incoming indexes are exactly those of the latest execution "
+         "(also for an execution that never produced an output); a reserved require is upgraded in place with checker and stamp.", "§4 C08"),
+ "C04": (MECH + "the scheduling queue never hands out a task that depends on a still-scheduled task, each scheduled task exactly once, also after a "
+         "require-now removal; a task is scheduled by a resource change iff its own checker reports inconsistency or fails; a requirer is "
+         "consistent bottom-up iff its checker accepts the new output (early cut-off).", "§4 C04"),
+ "C14": ("Partly, unit level: for the map resource, stamp/stamp_reader/stamp_writer agree with the stored value or absence and MapEqualsChecker is "
+         "consistent exactly when the current value or absence equals the stamped one, after writes through a writer and directly through the "
+         "resource state. Multi-key-type isolation is outside the claim (harness exceeds the memory cap).", "§4 C14"),
 }
 NA = {
+ "C01": "needs whole sessions over histories: states produced by real (nested) task executions do not get through CBMC's symbolic execution within the caps (DESIGN §2, §6)",
+ "C03": "needs a whole bottom-up build; executing a task through BottomUpContext explodes under CBMC (measured, DESIGN §2)",
+ "C13": "file checkers are thin layers over filesystem syscalls, SystemTime and SHA-256 over file content: not encodable (FFI) / textbook weak target (DESIGN §6)",
+ "C16": "the only hash-order-dependent code (DAG::reorder_nodes) was encoded with a solver-chosen iteration order, but the harness does not finish within the cap (20 min); event-stream equality needs whole sessions (DESIGN §6)",
+ "C19": "needs execution to continue after a panic; Kani models panic as abort and has no catch_unwind (DESIGN §6)",
+ "C20": "needs histories of whole sessions in which tasks change roles (DESIGN §6)",
 }
 NOT_BUILT = "check not built yet in this round (see DESIGN.md §4 for the plan)"
 ALL = ["C%02d" % i for i in range(1, 21)]
